@@ -9,7 +9,7 @@ genuine successful verify event for every signature that is present.
 import itertools
 import random
 
-from vlib import env, fed, xmlkit as xk, monitors, gen
+from vlib import env, fed, xmlkit as xk, monitors, gen, mdgen
 
 PROPERTY = "C02"
 LEVEL = "exploration"
@@ -44,20 +44,38 @@ def gen_cases(tier, seed):
                                           "opts": [wrs, was, waors], "layout": layout, "enc": enc, "corr": corr,
                                           "maker": maker, "how": how, "alg": alg,
                                           "identity": gen.identity(random.Random("%s/%s" % (seed, cid)))})
+    # the same table for issuers the SP's metadata knows but holds no signing key for: a signature that is present cannot be verified,
+    # so it can neither be ignored nor count as meeting a requirement
+    for mdkeys in sorted(MDKEYS):
+        for wrs, was, waors in itertools.product((0, 1), repeat=3):
+            for layout in ("none", "R", "A", "RA"):
+                for enc in (0, 1):
+                    cid = "o%d%d%d-%s-%s-issuer:%s" % (wrs, was, waors, layout, "enc" if enc else "plain", mdkeys)
+                    cases.append({"id": cid, "sig": [wrs, was, waors, layout, enc, "valid", "", "kit", mdkeys], "opts": [wrs, was, waors], "layout": layout, "enc": enc,
+                                  "corr": "valid", "maker": "kit", "how": "", "alg": "rsa-sha256", "mdkeys": mdkeys,
+                                  "identity": gen.identity(random.Random("%s/%s" % (seed, cid)))})
     return cases
+
+
+# IdP entries of the SP's metadata without a key usable for verifying signatures (the issuer still signs with k00)
+MDKEYS = {"no-key-descriptor": [], "encryption-only-key": [("encryption", 0)], "other-encryption-only-key": [("encryption", 4)]}
+B_REDIR = "urn:oasis:names:tc:SAML:2.0:bindings:HTTP-Redirect"
 
 
 def setup_worker(ctx):
     ctx.fedcache = fed.Cache()
 
 
-def _sp(ctx, opts):
+def _sp(ctx, opts, mdkeys=None):
     def build():
         spc = fed.sp_conf(want_response_signed=bool(opts[0]), want_assertions_signed=bool(opts[1]),
                           want_assertions_or_response_signed=bool(opts[2]))
         idc = fed.idp_conf()
-        return fed.make_sp(spc, [fed.metadata_of(idc)]), fed.make_idp(idc, [fed.metadata_of(spc)])
-    return ctx.fedcache.get("pair", opts, build)
+        idpmd = fed.metadata_of(idc)
+        if mdkeys is not None:
+            idpmd = mdgen.entity({"eid": fed.IDP_EID, "idp": {"keys": MDKEYS[mdkeys], "sso": [(B_REDIR, fed.SSO_REDIRECT)]}})
+        return fed.make_sp(spc, [idpmd]), fed.make_idp(idc, [fed.metadata_of(spc)])
+    return ctx.fedcache.get("pair", [opts, mdkeys], build)
 
 
 def corrupt_signature(text, owner_ns, owner_local, how):
@@ -123,11 +141,13 @@ def expected_accept(case):
     wrs, was, waors = case["opts"]
     R, A = "R" in case["layout"], "A" in case["layout"]
     ok = (not wrs or R) and (not was or A) and (not waors or R or A)
+    if case.get("mdkeys") and (R or A):
+        return False          # no key to verify the present signature with
     return ok and case["corr"] == "valid"
 
 
 def run_case(case, ctx):
-    sp, idp = _sp(ctx, case["opts"])
+    sp, idp = _sp(ctx, case["opts"], case.get("mdkeys"))
     xml, rid, aid = build_message(case, idp)
     ctx.mark()
     resp, exc = fed.deliver(sp, xml, dict(OUT))
@@ -141,7 +161,9 @@ def run_case(case, ctx):
     outcome = "accept" if accepted else "reject:" + excname
     if accepted != want:
         key = "false-accept" if accepted else "false-reject"
-        if accepted and case["corr"] != "valid":
+        if accepted and case.get("mdkeys") and case["layout"] != "none":
+            key = "signature-accepted-without-a-key-to-verify-it"
+        elif accepted and case["corr"] != "valid":
             key = "invalid-signature-ignored"
         elif accepted:
             key = "missing-required-signature-accepted"
